@@ -152,8 +152,11 @@ CONFIGS = {
 }
 
 
-def build_harness(cfg):
-    """cargo build of the harness against /repo's working tree; returns (ok, log)"""
+SHADOW_STALE = {}   # configuration name -> why the shadow build of the aarch64 backends fell back to the pinned sources
+SHADOW_PROPS = {"C01", "C02", "C03", "C04", "C07", "C12", "C15", "C16", "C17", "C20"}   # properties that quantify over backends
+
+
+def _cargo_build(cfg, extra_env=None):
     cmd = ["cargo", "build", "--offline", "--quiet"]
     if cfg.profile == "release":
         cmd.append("--release")
@@ -163,8 +166,36 @@ def build_harness(cfg):
     env.update(cfg.cargo_env)
     flags = cfg.rustflags
     env["RUSTFLAGS"] = (flags + " -Awarnings").strip()
+    env.update(extra_env or {})
     rc, out, err = sh(cmd, cwd=os.path.join(ROOT, "harness"), env=env, timeout=1800)
     return rc == 0, out + err
+
+
+def build_harness(cfg):
+    """cargo build of the harness against /repo's working tree; returns (ok, log).
+
+    The harness also contains the shadow builds of the two aarch64 backends (harness/build.rs: mechanical rewrites of the
+    *current* /repo text over software intrinsics).  When that part no longer builds — a rewrite rule does not match the
+    changed source, or the rewritten text does not compile — the rest of the harness must stay usable (otherwise a change
+    confined to `aes/src/armv8*` or `kuznyechik/src/neon` would take every check of every property down with it and no
+    failing input could be searched for): the build is retried with the shadows generated from the pinned copy of those
+    sources (harness/shadow_pinned).  The fall-back is recorded in SHADOW_STALE; `Check.run_family`/`finish` turn it into a
+    broken obligation for the properties that quantify over backends."""
+    first_env = {}
+    if os.environ.get("VERIF_TEST_BREAK_SHADOW"):
+        first_env = {"VERIF_KUZ_SRC": "/nonexistent"}
+    ok, log = _cargo_build(cfg, first_env)
+    if ok:
+        SHADOW_STALE.pop(cfg.build_as, None)
+        return True, log
+    pinned = os.path.join(ROOT, "harness", "shadow_pinned")
+    ok2, log2 = _cargo_build(cfg, {"VERIF_AES_SRC": os.path.join(pinned, "aes", "src"),
+                                   "VERIF_KUZ_SRC": os.path.join(pinned, "kuznyechik", "src")})
+    if ok2:
+        why = [l.strip() for l in log.splitlines() if "shadow" in l and ("panicked" in l or "shadow_kuz_neon" in l or "armv8 shadow" in l)]
+        SHADOW_STALE[cfg.build_as] = (why[:3] or [log[-600:]])
+        return True, log2
+    return False, log
 
 
 def run_harness(cfg, ops, extra_env=None):
@@ -209,8 +240,22 @@ def run_translator():
 
 def lake_build(targets):
     """returns (ok, log)"""
-    rc, out, err = sh(["lake", "build"] + targets, cwd=LEAN, timeout=7200)
-    return rc == 0, out + err
+    # a proof obligation that no longer terminates in reasonable time (a definitional-equality check can run away after a
+    # semantic change of the source) is a broken obligation, not a hung check
+    limit = int(os.environ.get("VERIF_LAKE_TIMEOUT", "2400"))
+    import signal
+    p = subprocess.Popen(["lake", "build"] + targets, cwd=LEAN, stdout=subprocess.PIPE, stderr=subprocess.STDOUT, text=True,
+                         start_new_session=True)
+    try:
+        out, _ = p.communicate(timeout=limit)
+    except subprocess.TimeoutExpired:
+        try:
+            os.killpg(p.pid, signal.SIGKILL)
+        except OSError:
+            pass
+        out, _ = p.communicate()
+        return False, f"error: lake build of {targets} did not finish within {limit} s (a proof obligation no longer terminates)\n" + (out or "")[-3000:]
+    return p.returncode == 0, out or ""
 
 
 THM_RE = re.compile(r"^\s*(?:private\s+)?theorem\s+([A-Za-z_][A-Za-z0-9_.']*)", re.M)
@@ -234,7 +279,9 @@ def theorems_of(module):
         if m and ns and ns[-1] == m.group(1):
             ns.pop()
             continue
-        m = re.match(r"^\s*(?:private\s+)?theorem\s+([A-Za-z_][A-Za-z0-9_.']*)", l)
+        # `private theorem`s are helper lemmas that cannot be named from another file; whatever axiom they use is
+        # inherited by (and reported for) the public theorems that depend on them
+        m = re.match(r"^\s*theorem\s+([A-Za-z_][A-Za-z0-9_.']*)", l)
         if m:
             names.append(".".join(ns + [m.group(1)]))
     return names, src
@@ -311,6 +358,24 @@ class Known:
         return None
 
 
+P_ = "BlockCiphers.Proofs."
+TIES = {
+    # code-level round trips: theorems whose statements mention only functions regenerated from /repo on this run
+    "C01": [P_ + x for x in ["CodeXtea", "CodeSm4", "CodeCamellia", "CodeAria", "CodeMagma", "CodeBelt", "CodeDes", "CodeGift", "CodeSerpent",
+                             "CodeAesFs64", "CodeAesFs32"]],
+    "C02": [P_ + x for x in ["GenAesFs64Base", "GenAesFs64Ed128", "GenAesFs64Ed192", "GenAesFs64Ed256", "GenAesFs64Ed128c", "GenAesFs64Ed192c",
+                             "GenAesFs64Ed256c", "GenAesFs64Ks128", "GenAesFs64Ks192", "GenAesFs64Ks256", "GenAesFs32", "GenAesFs32Keys",
+                             "CodeAesFs64", "CodeAesFs32"]],
+    "C05": [P_ + x for x in ["GenCipherDes", "GenKeysDes", "CodeDes"]],
+    "C06": [P_ + x for x in ["GenCipherAria", "GenKeysAria", "GenCipherCamellia", "GenKeysCamellia", "GenCipherSm4", "GenKeysSm4",
+                             "CodeAria", "CodeCamellia", "CodeSm4"]],
+    "C07": [P_ + x for x in ["GenCipherMagma", "GenKeysMagma", "GenCipherBelt", "GenKeysBelt", "CodeMagma", "CodeBelt"]],
+    "C08": [P_ + x for x in ["GenCipherSerpent", "GenKeysSerpent", "GenCipherCast6", "GenKeysCast6", "CodeSerpent"]],
+    "C09": [P_ + x for x in ["GenCipherCast5", "GenCipherRc2", "GenCipherXtea", "GenKeysXtea", "CodeXtea"]],
+    "C10": [P_ + x for x in ["GenCipherSpeck", "GenCipherThreefish", "GenKeysThreefish", "GenCipherGift", "GenKeysGift", "CodeGift"]],
+}
+
+
 class Check:
     """accumulates obligations, correspondence results and violations for one property run"""
 
@@ -344,13 +409,24 @@ class Check:
         self.extra = {}
 
     # ---- obligations -------------------------------------------------------------------------
-    def proof_obligations(self, module, extra_targets=()):
-        """translator + lake build of the property's theorem module + axiom audit"""
+    def proof_obligations(self, module, extra_targets=(), ties=None):
+        """translator + lake build of the property's theorem module + axiom audit.
+        ties: further proof modules whose theorems are obligations of this property — the `Gen… = Impl…` theorems that tie
+        the functions regenerated from /repo on this run (Gen/Cipher_*, Keys_*, Aes_*) to the model the property theorems
+        are about; default: the table TIES below."""
         broken = run_translator()
         for b in broken:
             self.note_hist("translator-broken")
-        ok, log = lake_build([module, "driver"] + list(extra_targets))
+        ties = list(TIES.get(self.pid, []) if ties is None else ties)
+        ties = [t for t in ties if os.path.exists(os.path.join(LEAN, *t.split(".")) + ".lean")]
+        ok, log = lake_build([module, "driver"] + list(extra_targets) + ties)
         names, _ = theorems_of(module)
+        tie_names = {}
+        for t in ties:
+            tn, _ = theorems_of(t)
+            tie_names[t] = tn
+        self.extra["tie_modules"] = {t: len(v) for t, v in tie_names.items()}
+        self.obligations += sum(len(v) for v in tie_names.values())
         self.obligations += len(names) + 1  # + source audit
         if not ok:
             failed = sorted(set(re.findall(r"error: ([^\n]*)", log)))
@@ -370,6 +446,14 @@ class Check:
         if bad:
             self.broken.append({"module": module, "axioms": bad})
         self.discharged += len([n for n in names if n in ax and not any(b.startswith(n + ":") for b in bad)])
+        for t, tn in tie_names.items():
+            ax2, bad2 = audit_axioms(t, tn)
+            # the tie modules are large: only the axioms that are not the three standard ones are kept in the evidence
+            self.axioms.update({k: v for k, v in ax2.items() if any(a not in ALLOWED_AXIOMS for a in v)})
+            if bad2:
+                self.broken.append({"module": t, "axioms": bad2})
+            self.discharged += len([n for n in tn if n in ax2 and not any(b.startswith(n + ":") for b in bad2)])
+            names = names + tn
         self.checker_cmd = f"cd /verif/lean && lake build {module} driver && lake env lean .build/audit (#print axioms of {len(names)} theorems)"
         self.thm_names = names
         return not self.broken
@@ -449,6 +533,11 @@ class Check:
     # ---- finish ------------------------------------------------------------------------------
     def finish(self, level="proof", rule="", explanation=""):
         wall = time.time() - self.t0
+        if SHADOW_STALE:
+            self.extra["shadow_build_fell_back_to_pinned_sources"] = dict(SHADOW_STALE)
+            if self.pid in SHADOW_PROPS:
+                self.broken.append({"shadow_build": "the aarch64 shadow build no longer applies to the current sources of /repo; the "
+                                    "Armv8Aes* / NeonKuznyechik* types were built from the pinned copy and decide nothing", "detail": dict(SHADOW_STALE)})
         os.makedirs(os.path.join(ROOT, "evidence"), exist_ok=True)
         os.makedirs(os.path.join(ROOT, "replays"), exist_ok=True)
         lines = []
